@@ -7,6 +7,10 @@ Contract enforced at run time (top-level clauses, from the property statement):
   option.inherited       option added to parser X is accepted by command c  <=>  X == c or X in anc[c]
   option.global          options added to the ArgParser and --color / --no-color / -v accepted by all
   default_command        argv not starting with a *command* name is parsed as the default command
+                         (names are compared exactly: a first argument which differs from a command
+                         name or from the name of an internal option set only by letter case is NOT a
+                         command name; it is data of the default command, and the options accepted after
+                         it are those the default command inherits)
 """
 import contextlib
 import io
@@ -16,7 +20,11 @@ import sys
 
 from ak import cli_tools
 
-NAMESETS = [['a', 'b', 'c', 'd', 'e'], ['zeta', 'y', 'mm', 'k2', 'b']]
+# the third assignment has names with upper-case letters, two of them equal up to letter case
+NAMESETS = [['a', 'b', 'c', 'd', 'e'], ['zeta', 'y', 'mm', 'k2', 'b'], ['Run', 'lS', 'ls', 'GO', 'b']]
+
+K_CASE_CMD = 'first-argument-differs-from-a-command-name-only-by-case'
+K_CASE_INT = 'first-argument-differs-from-an-internal-name-only-by-case'
 
 
 def anc_of(decl):
@@ -160,6 +168,75 @@ def check_default_with_positional(decl):
     return out
 
 
+def case_variants(name):
+    """spellings which differ from `name` only by letter case (deterministic order)"""
+    alt = ''.join(ch.upper() if i % 2 else ch.lower() for i, ch in enumerate(name))
+    out = []
+    for w in (name.upper(), name.lower(), name.capitalize(), name.swapcase(), alt):
+        if w != name and w.lower() == name.lower() and w not in out:
+            out.append(w)
+    return out
+
+
+def check_first_arg_case_variant(decl, events=None):
+    """Names are compared exactly.  A first argument which differs from a declared name (of a command
+    or of an internal '!' option set) only by letter case is not a command name, hence the vector is
+    parsed as the default command: the word is its positional, and an option following it is accepted
+    iff the DEFAULT command owns or inherits it (not iff the similarly spelled command does)."""
+    out = []
+    anc = anc_of(decl)
+    names = [d[0] for d in decl]
+    cmds = [d[0] for d in decl if not d[2]]
+    default = cmds[0]
+    try:
+        with quiet():
+            parser = build(decl)
+            for x in names:
+                parser.get_cmd_parser(x).add_argument(f'--opt-{x}', action='store_true')
+            parser.get_cmd_parser(default).add_argument('items', nargs='*')
+    except BaseException:      # noqa  (reported by check_decl)
+        return out
+
+    def owns(c, x):
+        return x == c or x in anc[c]
+
+    for nm, _parents, internal in decl:
+        for wi, w in enumerate(case_variants(nm)):
+            if w in names:
+                # exactly the name of another command (not a case of this clause) or of an internal
+                # option set (class 'internal-name' of check_default_with_positional)
+                continue
+            ksuf = K_CASE_INT if internal else K_CASE_CMD
+            if events is not None:
+                events.add('first-arg-case-variant-of-internal-name' if internal
+                           else 'first-arg-case-variant-of-command-name')
+                if not internal and any(owns(nm, x) != owns(default, x) for x in names):
+                    events.add('first-arg-case-variant-of-command-with-other-option-set')
+            ns, err = try_parse(parser, [w])
+            if ns is None or ns.command != default or ns.items != [w]:
+                out.append(('default_command', ksuf,
+                            f"argv [{w!r}] (differs from the declared name {nm!r} only by letter case, so it is "
+                            f"not a command name) not parsed as default command {default} with items=[{w!r}] "
+                            f"({err or vars(ns)}) for {decl_str(decl)}"))
+            for x in (names if wi < 2 else []):     # options: after the first two spellings only (cost)
+                argv = [w, f'--opt-{x}']
+                ns, err = try_parse(parser, argv)
+                if owns(default, x):
+                    if ns is None or ns.command != default or ns.items != [w] \
+                            or not getattr(ns, f'opt_{x}', False):
+                        out.append(('default_command', ksuf,
+                                    f"argv {argv} ({w!r} differs from the declared name {nm!r} only by letter "
+                                    f"case, so it is not a command name; --opt-{x} is owned or inherited by the "
+                                    f"default command {default}) not parsed as {default} with items=[{w!r}] and "
+                                    f"opt_{x} set ({err or vars(ns)}) for {decl_str(decl)}"))
+                elif ns is not None:
+                    out.append(('default_command', ksuf,
+                                f"argv {argv} ({w!r} differs from the declared name {nm!r} only by letter case, "
+                                f"so the vector belongs to the default command {default}) accepted although "
+                                f"{default} neither owns nor inherits --opt-{x} ({vars(ns)}) for {decl_str(decl)}"))
+    return out
+
+
 def decl_str(decl):
     return '[' + ', '.join(('!' if i else '') + n + (':' + ','.join(p) if p else '') for n, p, i in decl) + ']'
 
@@ -198,24 +275,29 @@ def enumerate_decls(n, names):
 def run(b):
     n = 4 if b.tier == 'quick' else 5
     for ni, names in enumerate(NAMESETS):
-        for decl in enumerate_decls(n if ni == 0 else min(n, 4), names):
+        for decl in enumerate_decls((n, min(n, 4), n - 1)[ni], names):
             feats = shape(decl)
             for f in feats:
                 b.hit(f)
             case = {'decl': decl}
             b.case(case, nontrivial=('multi-parent' in feats))
             res, _ = check_decl(decl)
-            res = list(res) + check_default_with_positional(decl)
+            events = set()
+            res = list(res) + check_default_with_positional(decl) + check_first_arg_case_variant(decl, events)
+            for ev in sorted(events):
+                b.hit(ev)
             for clause, ksuf, text in res:
                 cls = 'diamond' if 'diamond' in feats else ('multi-parent' if 'multi-parent' in feats else 'tree')
                 key = f"C19.{clause}:{ksuf}:{cls}" if clause in ('init.no_exception', 'dependents.closure') \
                     else f"C19.{clause}:{ksuf}"
                 b.fail(f"C19.{clause}", key, text, case)
-    b.require_reach(['diamond', 'chain3', 'internal-parent'])
+    b.require_reach(['diamond', 'chain3', 'internal-parent',
+                     'first-arg-case-variant-of-command-name', 'first-arg-case-variant-of-internal-name',
+                     'first-arg-case-variant-of-command-with-other-option-set'])
 
 
 def replay_case(case):
     decl = [(n, list(p), bool(i)) for n, p, i in case['decl']]
     res, _ = check_decl(decl)
-    res = list(res) + check_default_with_positional(decl)
+    res = list(res) + check_default_with_positional(decl) + check_first_arg_case_variant(decl)
     return (not res), [r[2] for r in res]
